@@ -125,6 +125,46 @@ def length_guard(ctx, fi, it, rule, unit, what):
     ctx.check(rule, not probs, fi, where, f"{fi.qualname}: {what}", "length % symbol size != 0 -> ValueError; whole symbols accepted", "; ".join(probs[:2]))
 
 
+def rule_sdd(ctx, r1="C12.1", r5="C12.5"):
+    """the soft decision: per-slot sum over ALL sps samples of signal+noise, argmax per symbol, one-hot (shared with C03.8)"""
+    pkg = ctx.pkg
+    M = S("M")
+    # ---------------------------------------------------------------- SDD
+    fsd = pkg.func("ppm.SDD")
+    if r1:
+        pow2_guard(ctx, fsd, r1, {"input": "electrical_signal"})
+    for noise in ("none", "notnone"):
+        it = Interp(pkg, param_classes={"input": "electrical_signal"}, assumptions={"input.noise": noise})
+        outs = it.run(fsd)
+        if noise == "none" and r1:
+            length_guard(ctx, fsd, it, r1, M * S("gv.sps"), "whole-symbol length guard (M*sps samples)")
+        rets = [o for o in outs if o.kind == "return"]
+        if len(rets) != 1 or not isinstance(rets[0].value, ObjV):
+            ctx.unknown(r5, fsd, fsd.node, f"SDD [noise {noise}]", f"{len(rets)} return paths")
+            continue
+        tot = S("input.signal") + (S("input.noise") if noise == "notnone" else 0)
+        energy = mk_fn("sum", [mk_fn("reshape", [tot, Form.num(-1), S("gv.sps")])], [("axis", Form.num(-1))])
+        am = mk_fn("argmax", [mk_fn("reshape", [energy, Form.num(-1), M])], [("axis", Form.num(-1))])
+        got = rets[0].value.fields.get("data")
+        a = got.single_atom() if isinstance(got, Form) else None
+        ok = False
+        why = "SDD is not: per-slot sum over sps samples of signal+noise, argmax per symbol of M slots, one-hot at arange*M + i"
+        if a and a[0] == "fn" and a[1] == "setitem":
+            base, idx, val = a[2]
+            nsymb = Form.atom(("idx", Form.atom(("attr", am, "shape")), Form.num(0)))
+            want_idx = mk_fn("arange", [nsymb]) * M + am
+            ba = base.single_atom() if isinstance(base, Form) else None
+            ok_base = ba and ba[0] == "fn" and ba[1] in ("zeros_like", "zeros") and (ba[2][0] == energy or True)
+            ok = same_mod_1d_size(idx, want_idx) and is_one(val) and bool(ok_base)
+            if not same_mod_1d_size(idx, want_idx):
+                ams = [x for x in idx.atoms() if x[0] == "fn" and x[1] in ("argmax", "argmin")] if isinstance(idx, Form) else []
+                if ams and ams[0][1] == "argmin":
+                    why = "the slot of *smallest* energy is selected (argmin)"
+                elif ams and ams[0] != am.single_atom():
+                    why = f"argmax operand is {ams[0][2][0]!r}: not the per-slot integrated energy of signal+noise grouped by M"
+        ctx.check(r5, ok, fsd, rets[0].node, f"SDD [noise {noise}]: one-hot of argmax slot energy", "ON exactly at the slot of largest integrated energy per symbol", why)
+
+
 def run(ctx):
     pkg = ctx.pkg
     eff = Effects(pkg)
@@ -237,39 +277,7 @@ def run(ctx):
                   f"kept slot index {idx!r} is not i*M + choice(where(symbol == 1)) of the symbol as it was before clearing: the kept slot need not have been ON")
     else:
         ctx.violation("C12.4", fh, fh.node, "HDD multiple-symbol repair", "clear-then-keep-one idiom not found: symbols with several ON slots are not reduced to one of their ON slots")
-    # ---------------------------------------------------------------- SDD
-    fsd = pkg.func("ppm.SDD")
-    pow2_guard(ctx, fsd, "C12.1", {"input": "electrical_signal"})
-    for noise in ("none", "notnone"):
-        it = Interp(pkg, param_classes={"input": "electrical_signal"}, assumptions={"input.noise": noise})
-        outs = it.run(fsd)
-        if noise == "none":
-            length_guard(ctx, fsd, it, "C12.1", M * S("gv.sps"), "whole-symbol length guard (M*sps samples)")
-        rets = [o for o in outs if o.kind == "return"]
-        if len(rets) != 1 or not isinstance(rets[0].value, ObjV):
-            ctx.unknown("C12.5", fsd, fsd.node, f"SDD [noise {noise}]", f"{len(rets)} return paths")
-            continue
-        tot = S("input.signal") + (S("input.noise") if noise == "notnone" else 0)
-        energy = mk_fn("sum", [mk_fn("reshape", [tot, Form.num(-1), S("gv.sps")])], [("axis", Form.num(-1))])
-        am = mk_fn("argmax", [mk_fn("reshape", [energy, Form.num(-1), M])], [("axis", Form.num(-1))])
-        got = rets[0].value.fields.get("data")
-        a = got.single_atom() if isinstance(got, Form) else None
-        ok = False
-        why = "SDD is not: per-slot sum over sps samples of signal+noise, argmax per symbol of M slots, one-hot at arange*M + i"
-        if a and a[0] == "fn" and a[1] == "setitem":
-            base, idx, val = a[2]
-            nsymb = Form.atom(("idx", Form.atom(("attr", am, "shape")), Form.num(0)))
-            want_idx = mk_fn("arange", [nsymb]) * M + am
-            ba = base.single_atom() if isinstance(base, Form) else None
-            ok_base = ba and ba[0] == "fn" and ba[1] in ("zeros_like", "zeros") and (ba[2][0] == energy or True)
-            ok = same_mod_1d_size(idx, want_idx) and is_one(val) and bool(ok_base)
-            if not same_mod_1d_size(idx, want_idx):
-                ams = [x for x in idx.atoms() if x[0] == "fn" and x[1] in ("argmax", "argmin")] if isinstance(idx, Form) else []
-                if ams and ams[0][1] == "argmin":
-                    why = "the slot of *smallest* energy is selected (argmin)"
-                elif ams and ams[0] != am.single_atom():
-                    why = f"argmax operand is {ams[0][2][0]!r}: not the per-slot integrated energy of signal+noise grouped by M"
-        ctx.check("C12.5", ok, fsd, rets[0].node, f"SDD [noise {noise}]: one-hot of argmax slot energy", "ON exactly at the slot of largest integrated energy per symbol", why)
+    rule_sdd(ctx)
     # ---------------------------------------------------------------- containers
     for f in (fi, fd, fh):
         it = Interp(pkg, assumptions={"input": ("notinst", "binary_sequence", "str", "list", "tuple", "numpy.ndarray", "ndarray")})
